@@ -785,6 +785,8 @@ Plan gen_C11(Gen &g, Plan p)
         static const char *cont[] = { "simple", "simple", "pipeline", "sorted" };
         p.cfg["audit_container"] = cont[g.r.below(4)]; // how the sub-pipeline is built
         p.cfg["audit_enospc"] = g.r.chance(1, 4); // every write to audit.log fails: its flush fails too
+        // the branch's file sink is added after the branch was attached and the logger was flushed once
+        p.cfg["audit_late"] = g.r.chance(1, 3);
         bool arot = g.r.chance(1, 2);
         p.cfg["audit_rot"] = arot;
         if (arot) {
